@@ -10,6 +10,9 @@ import base64, json, os, re, subprocess, tempfile
 from harness.common import *
 
 
+FOREIGN_ORDERS = {}
+
+
 def gen_tree(rng, alg, depth, np):
     """returns (python object, token list, list of dense canonical coefficient vectors of reachable mvs)"""
     from kingdon import MultiVector
@@ -34,7 +37,11 @@ def gen_tree(rng, alg, depth, np):
             ks = list(canon)
         elif kind == 'mv-dense-bin':
             ks = list(range(N))
-            if rng.random() < 0.3: rng.shuffle(ks)
+            r2 = rng.random()
+            if r2 < 0.3:
+                rng.shuffle(ks)
+            elif r2 < 0.6 and FOREIGN_ORDERS.get(d):
+                ks = list(rng.choice(FOREIGN_ORDERS[d]))      # the canonical key order of ANOTHER algebra of this dimension
         else:
             ks = rng.sample(range(N), rng.randint(1, min(N, 3)))
         if kind == 'mv-arr-nd2':
@@ -166,6 +173,14 @@ def run(ctx):
     lines, plan, node_cases, node_expect = [], [], [], []
     nper = 60 if ctx.quick else 400
     for sig, basis in cfgs:
+        a_ = make_algebra(sig, None, basis)
+        FOREIGN_ORDERS.setdefault(a_.d, [])
+        if list(a_.canon2bin.values()) not in FOREIGN_ORDERS[a_.d]:
+            FOREIGN_ORDERS[a_.d].append(list(a_.canon2bin.values()))
+    # every configuration is visited twice (the second time with a quarter of the cases): algebras of one dimension with different
+    # bases are then used before AND after each other in this process
+    passes = [(c, nper) for c in cfgs] + [(c, max(10, nper // 4)) for c in cfgs]
+    for (sig, basis), nper in passes:
         alg = make_algebra(sig, None, basis)
         canon = list(alg.canon2bin.values())
         tok = cfg_token(sig, None if basis else int(alg.start_index), list(alg.canon2bin.keys()) if basis else None)
@@ -243,6 +258,7 @@ def run(ctx):
             for rep in range(2):
                 drag_check(ctx, alg, w, case, rng, canon, tok, lines, plan, np)
     dependent_pass(ctx, np)
+    notification_pass(ctx, np)
     # decode with the front end's own code
     try:
         dec = node_decode(node_cases)
@@ -314,6 +330,42 @@ def dependent_pass(ctx, np):
                         break
             except Exception as e:
                 ctx.violation('graph-raises', case, 'a payload', repr(e)[:200], key='widget:raises')
+
+
+def notification_pass(ctx, np):
+    """after a drag the synced `subjects` must be *announced* as changed (traitlets notifies observers only when the new value
+    differs from the old one, and only then is it sent to the front end): list-backed and ndarray-backed points given directly,
+    in lists, and with labels / colours around them"""
+    from kingdon import MultiVector
+    rng = ctx.rng
+    for sig, basis in (([0, 1, 1], ["e", "e1", "e2", "e0", "e20", "e01", "e12", "e012"]), ([1, 1, 1], None)):
+        alg = make_algebra(sig, None, basis)
+        d = alg.d
+        canon = list(alg.canon2bin.values())
+        pga = alg.r == 1 and d in (3, 4)
+        pk = [k for k in canon if bin(k).count('1') == (d - 1 if pga else 1)]
+        for backing in ('list', 'ndarray'):
+            mk = lambda: MultiVector.fromkeysvalues(alg, tuple(pk), [float(rng.randint(1, 9)) for _ in pk] if backing == 'list'
+                                                    else np.array([float(rng.randint(1, 9)) for _ in pk]))
+            A, B, C = mk(), mk(), mk()
+            for scene, args in (('direct', [A, B, C]), ('readme-triangle', [0xD0FFE1, [A, B, C], 0x224488, A, 'A', B, 'B', C, 'C'])):
+                case = {'sig': sig, 'basis': basis, 'backing': backing, 'scene': scene}
+                try:
+                    w = alg.graph(*args)
+                    w.subjects
+                    seen = []
+                    w.observe(lambda ch: seen.append(1), names='subjects')
+                    for step in range(2):
+                        n0 = len(seen)
+                        targets = [w.pre_subjects[j] for j in w.draggable_points_idxs]
+                        w.draggable_points = [{'mv': [float(rng.randint(-9, 9)) + 0.5 for _ in canon]} for _ in targets]
+                        ctx.case({**case, 'drag': step}, tag='drag-notification')
+                        if len(seen) == n0:
+                            ctx.violation('drag-not-announced', {**case, 'drag': step}, 'observers of `subjects` are notified after a drag that changes coefficients',
+                                          'no notification: the front end keeps the old subjects', key=f'drag:notification:{backing}')
+                            break
+                except Exception as e:
+                    ctx.violation('graph-raises', case, 'a payload', repr(e)[:200], key='widget:raises')
 
 
 def flat(x):
